@@ -355,6 +355,8 @@ func (ce CloseError) bytesErr() ([]byte, error) {
 }
 
 func (c *Conn) casClosing() bool {
+	simYield("closeMu.before", c)
+	defer simNote("closeMu.released", c)
 	c.closeMu.Lock()
 	defer c.closeMu.Unlock()
 	if !c.closing {
